@@ -1,0 +1,21 @@
+//go:build verif
+
+// Contracts for package utils (C02): the extractors the client's decoders read every member through return the
+// member as it was decoded - nothing trimmed, defaulted or converted.  Comment-only file.
+
+package utils
+
+//@ func ExtractString
+//@   pure
+//@   ensures[C02 a-string-member-is-returned-as-decoded] istype(data[key], string) ==> result == data[key].(string)
+//@   ensures[C02 anything-else-is-the-empty-string] !istype(data[key], string) ==> result == ""
+//@
+//@ func ExtractMap
+//@   pure
+//@   ensures[C02 an-object-member-is-returned-as-decoded] istype(data[key], map[string]interface{}) ==> same(result, data[key].(map[string]interface{}))
+//@   ensures[C02 anything-else-is-nil] !istype(data[key], map[string]interface{}) ==> result == nil
+//@ func ExtractArray
+//@   pure
+//@   ensures[C02 an-array-member-is-returned-as-decoded] istype(data[key], []interface{}) ==> same(result, data[key].([]interface{}))
+//@   ensures[C02 anything-else-is-nil] !istype(data[key], []interface{}) ==> result == nil
+//@
